@@ -56,6 +56,32 @@ def call(d, op, cond, ids, spelling, col=None):
         return {'kind': 'exc', 'cls': type(e).__name__}
 
 
+def observe_one2(abs_t, cond, excl, find, spelling):
+    """d.one_or_none(cond, exc = {...}, find = col)"""
+    ids = IdMap()
+    d = table_from(abs_t, ids)
+    if cond['kind'] == 'pred':
+        args, kw = (PREDS[cond['name']],), {}
+    else:
+        flt = {c: cell_cond(cc, ids) for c, cc in cond['items']}
+        args, kw = ((), flt) if spelling == 'kw' else ((flt,), {})
+    if excl['kind'] != 'none':
+        kw['exc'] = {c: cell_cond(cc, ids) for c, cc in excl['items']}
+    if find:
+        kw['find'] = find
+    try:
+        res = d.one_or_none(*args, **kw)
+        if res is None:
+            out = {'kind': 'none'}
+        elif find:
+            out = {'kind': 'val', 'v': tag(res, ids)}
+        else:
+            out = {'kind': 'row', 'row': {k: tag(v, ids) for k, v in res.items()}}
+    except Exception as e:
+        out = {'kind': 'exc', 'cls': type(e).__name__}
+    return {'op': 'one2', 't': abs_t, 'cond': cond, 'excl': excl, 'find': find, 'out': out, 'after': proj_table(d, ids), 'spelling': spelling}
+
+
 def observe(abs_t, cond, op, spelling, col=None):
     ids = IdMap()
     d = table_from(abs_t, ids)
@@ -133,11 +159,16 @@ def c2s(ctx, ntables):
             for op in ('inc', 'exc', 'one'):
                 obs.append(observe(t, cond, op, sp))
             obs.append(observe(t, cond, 'find', sp, ctx.rng.choice(t['cols'])))
+            excl = rand_cond(ctx.rng, t, sub)
+            if excl['kind'] != 'kw' or not excl['items'] or any(c in ('exc', 'find') for c, _ in excl['items']):
+                excl = {'kind': 'none'}
+            if not any(c in ('exc', 'find') for c in t['cols']):
+                obs.append(observe_one2(t, cond, excl, ctx.rng.choice(['', ''] + t['cols']), sp))
     ctx.evals += len(obs)
     bad = ctx.validate('Trace_Inc', obs)
     for i, clause in bad:
         o = obs[i - 1]
-        ctx.violation(clause, {k: o[k] for k in ('op', 't', 'cond', 'spelling') if k in o} | ({'col': o['col']} if 'col' in o else {}),
+        ctx.violation(clause, {k: o[k] for k in ('op', 't', 'cond', 'spelling', 'excl', 'find') if k in o} | ({'col': o['col']} if 'col' in o else {}),
                       {'observed': o['out'], 'after': o['after']})
     for o in obs:
         if o['out'].get('kind') == 'table' and 0 < len(o['out']['rows']) < len(o['t']['rows']):
@@ -164,7 +195,7 @@ def run(ctx):
 
 def replay(ctx, body):
     c = body['case']
-    o = observe(c['t'], c['cond'], c['op'], c['spelling'], c.get('col'))
+    o = observe_one2(c['t'], c['cond'], c['excl'], c['find'], c['spelling']) if c['op'] == 'one2' else observe(c['t'], c['cond'], c['op'], c['spelling'], c.get('col'))
     bad = ctx.validate('Trace_Inc', [o])
     print('replay:', 'REJECTED %s' % bad if bad else 'accepted', o['out'])
     return 1 if bad else 0
